@@ -37,7 +37,10 @@ CONFIG = {
                     "j5codec.Global on its first use in the process) and one fresh SchemaCache; every goroutine performs a shuffled list "
                     "of ProtoToJSON / JSONToProto / QueryToProto / SchemaCache.Schema calls over a set of message types: shared "
                     "sub-schemas (test.schema.v1.*), recursive (j5.schema.v1.*, NestedExposed), disjoint, generated descriptor graphs "
-                    "(dynamicpb), mixed; every result is compared with the result of the same call alone on a fresh codec (JSON "
+                    "(dynamicpb), mixed, failing (a generated graph with a member whose build is a schema error and that shares "
+                    "sub-schemas with good types: the roll-back runs under contention), mutual (generated rings with back edges: self "
+                    "and mutual recursion); in half of the rounds every goroutine's first call is on the same type (stampede on its "
+                    "first use, through a different entry point per goroutine); every result is compared with the result of the same call alone on a fresh codec (JSON "
                     "compared up to object key order). Failures: a race detector report (signature race:<function of the write>), "
                     "fatal 'concurrent map', crash, deadlock (no call completed for 120 s), differing result, unlinked ref observed. Non-trivial = a "
                     "child that completed calls; distinct by op text.",
@@ -45,22 +48,35 @@ CONFIG = {
     ],
     "trusted_base": [
         "Lean 4.33.0 kernel; axioms propext, Classical.choice, Quot.sound",
-        "hand-written models J5V/Conc/Sched.lean (interleaving semantics) and J5V/Conc/Cache.lean (SchemaCache algorithm of "
-        "lib/j5schema/schema_cache.go incl. the roll-back of a failed build), the latter validated by the conc.seq correspondence",
-        "extract/locks.go (go/ast + go/types): which accesses exist, which function they are in, Lock + deferred Unlock domination, "
-        "the requires-lock call-graph closure; an access it mis-attributes is not covered (extractor soundness)",
-        "the Go memory model: a sync.Mutex Unlock happens-before the next Lock; data-race-free programs are sequentially consistent",
-        "the Go runtime (scheduler, maps, GC) and thread-safety inside protobuf-go (lazy descriptor / message-info initialisation), "
-        "encoding/json, strcase: exercised by the race search only",
+        "hand-written models J5V/Conc/Sched.lean (interleaving semantics; reader/writer locks with Go's writer preference; "
+        "happens-before = program order + Unlock->Lock, Unlock->RLock, RUnlock->Lock of one lock, as in the Go memory model's "
+        "text for sync.Mutex / sync.RWMutex) and J5V/Conc/Cache.lean (SchemaCache algorithm of lib/j5schema/schema_cache.go "
+        "incl. the roll-back of a failed build), the latter validated by the conc.seq correspondence",
+        "extract/locks.go (go/ast + go/types): which accesses exist, which function they are in, Lock/RLock + deferred "
+        "Unlock/RUnlock domination, the requires-lock call-graph closure, the obtainer / domination closure for published reads "
+        "(positional: an obtainer was called unconditionally earlier in the function, or every call site is guarded or dominated), "
+        "type reachability for the shared-state table; an access it mis-attributes is not covered (extractor soundness). Not "
+        "tracked: aliasing through parameters and locals (e.g. append to a parameter that aliases a shared slice: "
+        "ObjectProperty.nestedClone is safe only because every shared ProtoField has cap == len), function values",
+        "the Go memory model: the synchronisation edges above; data-race-free programs are sequentially consistent",
+        "the Go runtime (scheduler, maps, GC) and thread-safety inside protobuf-go (lazy descriptor / message-info initialisation, "
+        "generated .pb.go files: 28 files of this module are not analysed), encoding/json, strcase: exercised by the race search only",
         "the Go harness internal/verifh/conch and the hook lib/j5schema/verif_conc.go (overlay, tag verif)",
     ],
     "assumptions": [
         "partial: the theorems are about the lock discipline the extractor can see and about the cache algorithm, not about the Go code itself",
-        "reads of schema fields (RefSchema.To, ObjectSchema.Properties, …) after Schema() returned happen outside the lock by design; "
-        "they are covered by C10_published_frozen / C10_no_unlinked_visible (every reachable ref is linked before the call returns and "
-        "never written again) plus the trusted mutex happens-before edge, not by the lockset theorem",
-        "objects constructed in lib/j5reflect and internal/codec (decoder, encoder, propSet, field wrappers) are per call and never "
-        "stored into shared state; their leaf mutexes (type_array.go) guard per-call protobuf lists",
+        "reads of schema fields (RefSchema.To, ObjectSchema.Properties, …) after Schema() returned happen outside the lock by design. "
+        "They are in the race theorem now (C10_hb_publication / C10_code_hb_race_free) under the publication rule PubOrdered, a "
+        "property of the execution: the reader acquired the cache lock between the write and its read and the location is not "
+        "written afterwards. Its static half is the obligation C10_code_published_dominated (every such read is dominated by a "
+        "call that goes through the lock); its dynamic half (what was returned is linked and never written again) is "
+        "C10_no_unlinked_visible + C10_published_frozen on the cache model, tied to the code by conc.seq. The two halves are not "
+        "connected by one Lean theorem (locations of the Sched model are abstract; the E7 table names fields, not objects)",
+        "objects constructed in lib/j5reflect and internal/codec (decoder, encoder, propSet, field wrappers: 44 struct types) are "
+        "per call: their types are not reachable through the static types of Codec, Reflector or any package-level variable; "
+        "their leaf mutexes (type_array.go) guard per-call protobuf lists",
+        "an obtainer that returns an error returned no schema (NewRoot's early return for an invalid message): the code after it "
+        "holds no reference to read through",
         "splitDescriptorName is injective on the descriptor set (the model flattens packages[pkg].Schemas[name] to one key)",
         "exposed oneofs are presented to the model as ordinary oneof nodes: registration order inside one locked build and the "
         "'placeholder already exists for oneof wrapper' branch (unreachable with unique names) are not observable outside the lock",
@@ -71,26 +87,45 @@ CONFIG = {
 
 
 def extra(ctx):
-    """Summarises the regenerated E7 table in the evidence (the obligations themselves are theorems)."""
+    """Summarises the regenerated E7 tables in the evidence (the obligations themselves are theorems)."""
     import re
     lean = os.path.join(_VERIF, "lean") if _REPO == "/repo" else os.path.join(ctx["work"], "lean")
     path = os.path.join(lean, "J5V", "Generated", "LocksFacts.lean")
     cov = {}
     try:
         src = open(path).read()
+
+        def strlist(name):
+            m = re.search(r"def %s : List String := \[(.*)\]" % name, src)
+            return re.findall(r"\"([^\"]*)\"", m.group(1)) if m else []
+
+        def nat(name):
+            m = re.search(r"def %s : Nat := (\d+)" % name, src)
+            return int(m.group(1)) if m else 0
+
         rows = re.findall(r"^  ⟨(\d+), (true|false), (true|false), (true|false), (none|some \d+), \"([^\"]*)\"", src, flags=re.M)
         must = [r for r in rows if "true" in r[1:4]]
-        m = re.search(r"def locations : List String := \[(.*)\]", src)
-        cov["e7_locations"] = re.findall(r"\"([^\"]*)\"", m.group(1)) if m else []
+        cov["e7_analysed_packages"] = strlist("analysedPackages")
+        cov["e7_generated_files_not_analysed"] = nat("generatedFilesSkipped")
+        cov["e7_locations"] = strlist("locations")
+        cov["e7_cache_locks"] = strlist("cacheLocks")
+        cov["e7_lock_names"] = strlist("lockNames")
         cov["e7_accesses"] = len(rows)
         cov["e7_protected_accesses"] = len(must)
         cov["e7_protected_unguarded"] = len([r for r in must if r[4] == "none"])
-        cov["e7_published_reads_outside_lock"] = len([r for r in rows if r[4] == "none" and "true" not in r[1:4]])
+        pub = re.findall(r"^  ⟨(\d+), \"([^\"]*)\", \"([^\"]*)\", (true|false), \"([^\"]*)\"⟩", src, flags=re.M)
+        cov["e7_published_reads"] = len(pub)
+        cov["e7_published_reads_not_dominated"] = [p[1] + " " + p[2] for p in pub if p[3] == "false"]
+        cov["e7_obtainers"] = strlist("obtainers")
         cov["e7_lock_sites"] = re.findall(r"^  ⟨\"([^\"]*)\", (\d+), (true|false), (true|false), (true|false)⟩", src, flags=re.M)
-        m = re.search(r"def reachableFunctions : Nat := (\d+)", src)
-        cov["e7_reachable_functions"] = int(m.group(1)) if m else 0
-        m = re.search(r"def requiresLock : List String := \[(.*)\]", src)
-        cov["e7_requires_lock_helpers"] = len(re.findall(r"\"", m.group(1))) // 2 if m else 0
+        shared = re.findall(r"^  ⟨\"([^\"]*)\", \"([^\"]*)\", (true|false), (true|false), (true|false), \[", src, flags=re.M)
+        cov["e7_shared_state_rows"] = len(shared)
+        cov["e7_shared_written_on_path"] = [r[0] for r in shared if r[3] == "true"]
+        cov["e7_shared_unguarded_writes"] = [r[0] for r in shared if r[3] == "true" and r[4] == "false"]
+        cov["e7_shared_types"] = strlist("sharedTypes")
+        cov["e7_per_call_struct_types"] = nat("perCallStructTypes")
+        cov["e7_reachable_functions"] = nat("reachableFunctions")
+        cov["e7_requires_lock_helpers"] = len(strlist("requiresLock"))
     except OSError as e:
         cov["e7_error"] = str(e)
     return {"coverage": cov}
